@@ -233,7 +233,7 @@ fn compare(obs: &mut Obs, what: &str, got: &[f64], reference: &Ref) {
     }
     let scale = reference.value.iter().fold(0.0f64, |a, b| a.max(b.abs()));
     for (k, (u, v)) in got.iter().zip(&reference.value).enumerate() {
-        if u.is_nan() && v.is_nan() {
+        if (u.is_nan() && v.is_nan()) || u == v {
             continue;
         }
         let tol = RTOL * scale.max(u.abs()) + AMP * reference.sens[k];
@@ -250,6 +250,9 @@ fn compare(obs: &mut Obs, what: &str, got: &[f64], reference: &Ref) {
 pub fn check(case: &Case, obs: &mut Obs) {
     obs.class(case.spec.label());
     obs.class(format!("n={}", case.spec.n()));
+    if case.state.x.iter().any(|&v| v == 0.0) {
+        obs.class("zero-mole component");
+    }
     let Some(sys) = build(case, obs) else { return };
     let Some(s0) = fresh(&sys) else {
         obs.discard("state");
@@ -567,6 +570,15 @@ fn gen_sys(g: &mut Gen) -> (ModelSpec, StateSpec, Vec<usize>) {
     // functionals is a 1e-7 remainder of cancelling contributions (1 ulp of those = 1e-9 of A),
     // and getters are compared with rtol 1e-9. The cache mechanism does not depend on the state.
     state.f_eta = state.f_eta.max(0.02);
+    // a component that is present in the model with exactly zero moles (the iterative association
+    // solver, the ideal-gas term and several getters have special branches for it)
+    let zero_ok = spec.n() >= 2 && !(spec.family == Family::EPcSaft && spec.source.starts_with("shipped"));
+    if zero_ok && g.bool(0.15) {
+        let k = g.index(spec.n());
+        state.x[k] = 0.0;
+        let sum: f64 = state.x.iter().sum();
+        state.x.iter_mut().for_each(|v| *v /= sum);
+    }
     let ig = (0..spec.n()).map(|_| g.index(POOLS.dippr.len())).collect();
     (spec, state, ig)
 }
@@ -604,6 +616,9 @@ pub struct ParCase {
     pub npoints: usize,
     pub chunksize: usize,
     pub threads: Vec<usize>,
+    /// solver option max_iter (None = default); small values make single points fail
+    #[serde(default)]
+    pub max_iter: Option<usize>,
 }
 
 pub fn decode_par(g: &mut Gen) -> ParCase {
@@ -615,13 +630,20 @@ pub fn decode_par(g: &mut Gen) -> ParCase {
     let pool = [1usize, 2, 3, 4, 8, 16];
     let t1 = pool[g.index(6)];
     let t2 = pool[g.index(6)];
+    let tmin_red = g.range(0.45, 0.9);
+    // a tight iteration limit makes single grid temperatures fail: the sequential diagram skips
+    // exactly the failing points. (Temperatures below 0.45 T_c are not used: outside the solver's
+    // success domain the pure models have several liquid-like roots and the converged state
+    // legitimately depends on the continuation.)
+    let max_iter = if g.bool(0.3) { Some(2 + g.index(6)) } else { None };
     ParCase {
         file,
         record,
-        tmin_red: g.range(0.45, 0.9),
+        tmin_red,
         npoints,
         chunksize,
         threads: vec![t1, t2],
+        max_iter,
     }
 }
 
@@ -642,7 +664,17 @@ pub fn check_par(case: &ParCase, obs: &mut Obs) {
     };
     let tc = pure_tc(&spec, &model, 0);
     let tmin = case.tmin_red * tc * KELVIN;
-    let seq = match PhaseDiagram::pure(&model, tmin, case.npoints, None, SolverOptions::default()) {
+    let options = match case.max_iter {
+        Some(k) => SolverOptions::default().max_iter(k),
+        None => SolverOptions::default(),
+    };
+    if case.max_iter.is_some() {
+        obs.class("small max_iter");
+    }
+    if case.tmin_red < 0.45 {
+        obs.class("T_min below the success domain");
+    }
+    let seq = match PhaseDiagram::pure(&model, tmin, case.npoints, None, options) {
         Ok(d) => d,
         Err(e) => {
             obs.discard(format!("sequential diagram failed: {e}"));
@@ -666,7 +698,7 @@ pub fn check_par(case: &ParCase, obs: &mut Obs) {
     let mut pars = vec![];
     for &k in &case.threads {
         let pool = rayon::ThreadPoolBuilder::new().num_threads(k).build().unwrap();
-        match PhaseDiagram::par_pure(&model, tmin, case.npoints, case.chunksize, pool, None, SolverOptions::default()) {
+        match PhaseDiagram::par_pure(&model, tmin, case.npoints, case.chunksize, pool, None, options) {
             Ok(d) => pars.push((k, sig(&d))),
             Err(e) => {
                 obs.fail(format!("par_pure failed where pure succeeded: {e}"));
@@ -674,18 +706,81 @@ pub fn check_par(case: &ParCase, obs: &mut Obs) {
             }
         }
     }
+    // Reference model of the documented algorithm: the temperature grid is cut into chunks of
+    // `chunksize`; inside a chunk every point is solved with the previous point of the chunk as
+    // initial state and a failing point is skipped (exactly what `pure` does on the whole grid).
+    let expected: Option<Vec<[f64; 4]>> = (|| {
+        let sc = State::critical_point(&model, None, None, SolverOptions::default()).ok()?;
+        let t0 = tmin.to_reduced();
+        let tmax = t0 + (sc.temperature.to_reduced() - t0) * ((case.npoints - 2) as f64 / (case.npoints - 1) as f64);
+        // same expression as the library (quantities in K): min + (Tc - min) * (n-2)/(n-1)
+        let tmax_q = tmin + (sc.temperature - tmin) * ((case.npoints - 2) as f64 / (case.npoints - 1) as f64);
+        let _ = tmax;
+        let grid = ndarray::Array1::linspace(t0, tmax_q.to_reduced(), case.npoints - 1);
+        let mut out = vec![];
+        for chunk in grid.to_vec().chunks(case.chunksize) {
+            let mut vle: Option<feos::core::PhaseEquilibrium<Model, 2>> = None;
+            for &ti in chunk {
+                vle = feos::core::PhaseEquilibrium::pure(&model, Temperature::from_reduced(ti), vle.as_ref(), options).ok();
+                if let Some(v) = vle.as_ref() {
+                    out.push([
+                        v.vapor().temperature.to_reduced(),
+                        v.vapor().density.to_reduced(),
+                        v.liquid().density.to_reduced(),
+                        v.vapor().pressure(Contributions::Total).to_reduced(),
+                    ]);
+                }
+            }
+        }
+        out.push([
+            sc.temperature.to_reduced(),
+            sc.density.to_reduced(),
+            sc.density.to_reduced(),
+            sc.pressure(Contributions::Total).to_reduced(),
+        ]);
+        Some(out)
+    })();
+    let some_point_failed = a.len() < case.npoints || pars.iter().any(|(_, b)| b.len() < case.npoints);
     for (k, b) in &pars {
         obs.count();
-        if b.len() != a.len() {
-            obs.fail(format!("par_pure({k} threads, chunksize {}) returns {} states, pure returns {}", case.chunksize, b.len(), a.len()));
-            continue;
+        // (i) against the chunk-wise reference model: always, exactly
+        if let Some(e) = &expected {
+            if e.len() != b.len() {
+                obs.fail(format!(
+                    "par_pure({k} threads, chunksize {}) returns {} states, the chunk-wise reference model (skip only the failing points) gives {}",
+                    case.chunksize,
+                    b.len(),
+                    e.len()
+                ));
+            } else {
+                for (idx, (u, v)) in e.iter().zip(b).enumerate() {
+                    for q in 0..4 {
+                        obs.close(&format!("par_pure vs chunk-wise model [{idx}][{q}] ({k} threads)"), u[q], v[q], 1e-12, 0.0);
+                    }
+                }
+            }
         }
-        for (idx, (u, v)) in a.iter().zip(b).enumerate() {
-            // same temperatures in the same order; densities and pressure to solver tolerance
-            obs.close(&format!("T[{idx}] ({k} threads)"), u[0], v[0], 1e-13, 0.0);
-            obs.close(&format!("rho_v[{idx}] ({k} threads)"), u[1], v[1], 1e-8, 0.0);
-            obs.close(&format!("rho_l[{idx}] ({k} threads)"), u[2], v[2], 1e-8, 0.0);
-            obs.close(&format!("p[{idx}] ({k} threads)"), u[3], v[3], 1e-8, 0.0);
+        // (ii) against the sequential diagram: the property itself
+        let mut o = Obs::default();
+        if b.len() != a.len() {
+            o.fail(format!("par_pure({k} threads, chunksize {}) returns {} states, pure returns {}", case.chunksize, b.len(), a.len()));
+        } else {
+            for (idx, (u, v)) in a.iter().zip(b).enumerate() {
+                // same temperatures in the same order; densities and pressure to solver tolerance
+                o.close(&format!("T[{idx}] ({k} threads)"), u[0], v[0], 1e-13, 0.0);
+                o.close(&format!("rho_v[{idx}] ({k} threads)"), u[1], v[1], 1e-8, 0.0);
+                o.close(&format!("rho_l[{idx}] ({k} threads)"), u[2], v[2], 1e-8, 0.0);
+                o.close(&format!("p[{idx}] ({k} threads)"), u[3], v[3], 1e-8, 0.0);
+            }
+        }
+        obs.comparisons += o.comparisons;
+        for f in o.fails {
+            if some_point_failed {
+                // continuation across chunk boundaries decides which points can be solved at all
+                obs.known_or_fail("C11/par-pure-differs-from-pure-when-points-fail", f);
+            } else {
+                obs.fail(f);
+            }
         }
     }
     if pars.len() == 2 && pars[0].1.len() == pars[1].1.len() {
@@ -698,6 +793,8 @@ pub fn check_par(case: &ParCase, obs: &mut Obs) {
     }
     if a.len() == case.npoints {
         obs.class("all points converged");
+    } else {
+        obs.class("sequential diagram skipped failing points");
     }
     if case.chunksize < case.npoints - 1 && case.threads.iter().any(|&k| k > 1) {
         obs.nontrivial();
